@@ -98,7 +98,9 @@ def vstack (arrs : List (Arr α)) (zero : α) : Res (Arr α) :=
   | [] => .ok empty
   | a0 :: _ =>
     validateStackShapes arrs 0 0 >>= fun _ =>
-    (if a0.shape.length = 1 then vecInsert a0.shape 0 arrs.length
+    (if a0.shape.length = 1 then
+       -- vectors become the rows of the result: they must all have the shape of the first one
+       (if arrs.any (fun a => a.shape ≠ a0.shape) then .err .ConcatenateShapeMismatch else vecInsert a0.shape 0 arrs.length)
      else
        -- `b.shape[0]` for every array (rank >= 1 guaranteed by the validation above)
        Res.mapM' (fun (b : Arr α) => Res.idx b.shape 0) arrs >>= fun ds => .ok (a0.shape.set 0 ds.sum)) >>= fun newShape =>
